@@ -158,6 +158,32 @@ Theorem top_level_export_final : forall C fuel d its s f' s',
 Proof. exact T_top_level_export_final. Qed.
 Print Assumptions top_level_export_final.
 
+(* the same statement under the name used for the scenario class "every assignment form in export mode":
+   after a chunk compiled with export_top_level_ids has run, exports(x) = the value the top-level local x
+   holds, for every x assigned by `=`, `+=`, `export` or an un-aliased import *)
+Theorem exports_track_final_values : forall C fuel d its s f' s',
+    WF s -> plain_script its = true ->
+    run_items C (imp C fuel) true (new_frame (exports s) d) s its = Some (Ok f', s') ->
+    forall x v, al_get x (locals f') = Some v -> exported s' x = Some v.
+Proof. exact T_top_level_export_final. Qed.
+Print Assumptions exports_track_final_values.
+
+(* a compound assignment exports its result whether the id is a local of the chunk or comes from an
+   earlier chunk, and updates the local when there is one *)
+Theorem compound_assign_exports : forall C rec k e f s f' s' a b,
+    load_id C s f k = Ok (VInt a) -> eval C s f e = Ok (VInt b) ->
+    run_item C rec true f s (AssignOp k e) = Some (Ok f', s') ->
+    exported s' k = Some (VInt (a + b)) /\
+    (al_get k (locals f) <> None -> al_get k (locals f') = Some (VInt (a + b))).
+Proof. exact T_compound_assign_exports. Qed.
+Print Assumptions compound_assign_exports.
+
+(* x = 1; x += 1 in one chunk, then x += 5 in the next: exports hold 2, then 7 *)
+Example compound_same_and_later_chunk : exists s',
+    host_history {| files := []; prelude := []; run_import_tests := true |} 3 [HRun true [] [Assign 10 (ELit 1); AssignOp 10 (ELit 1)]; HRun true [] [AssignOp 10 (ELit 5)]] init_st
+      = Some ([Ok tt; Ok tt], s') /\ exported s' 10 = Some (VInt 7).
+Proof. eexists. split; vm_compute; reflexivity. Qed.
+
 (* ---------- non-vacuity and the excluded classes, on executable instances ---------- *)
 (* module 1 (a.koto): marker, export k10 = 7; module 2 (b.koto) imports 1 and 3; 3 imports 2 (cycle) *)
 Definition Cx : cfg :=
